@@ -56,6 +56,10 @@ class Ref:
     def __repr__(self):
         return "Ref(_%d%s)" % (self.local, "".join(".%s" % (p,) for p in self.path))
 
+    def __deepcopy__(self, memo):
+        return self  # a borrow / pointer: copying the holder keeps the referent
+
+
 
 class Slice:
     """&[T] / &mut [T] / &str view onto a heap list (esz = element size in bytes)."""
@@ -69,6 +73,10 @@ class Slice:
 
     def __repr__(self):
         return "Slice(%r)" % (self.heap[self.start:self.start + self.len],)
+
+    def __deepcopy__(self, memo):
+        return self  # a borrow / pointer: copying the holder keeps the referent
+
 
 
 class Ptr:
@@ -122,6 +130,10 @@ def pointee_size(ty):
     t = t.rsplit("::", 1)[-1]
     return TYPE_SIZES.get(t)
 
+    def __deepcopy__(self, memo):
+        return self  # a borrow / pointer: copying the holder keeps the referent
+
+
 
 class Vec:
     """SIMD register: tuple of unsigned byte lanes."""
@@ -151,6 +163,10 @@ class UninitBox:
 
     def __repr__(self):
         return "%s(%r)" % ("Box" if self.init else "UninitBox", self.cell[0])
+
+    def __deepcopy__(self, memo):
+        return self  # a borrow / pointer: copying the holder keeps the referent
+
 
 
 class Adt:
@@ -245,6 +261,10 @@ class Frame:
         Frame._n += 1
         self.id = Frame._n
         self.gen = {}
+
+    def __deepcopy__(self, memo):
+        return self  # a borrow / pointer: copying the holder keeps the referent
+
 
 
 class _PromotedFn:
@@ -372,6 +392,13 @@ class Interp:
 
     def write(self, fr, pl, val):
         frame, local, path = self.resolve(fr, pl)
+        self.write_resolved(frame, local, path, val)
+
+    def write_ref(self, r, val):
+        """Store through a reference value."""
+        self.write_resolved(r.frame, r.local, list(r.path), val)
+
+    def write_resolved(self, frame, local, path, val):
         if path and path[-1] == "*":
             tgt = self.read_path(frame, local, path[:-1])
             if isinstance(tgt, UninitBox) and tgt.init:
@@ -894,6 +921,22 @@ class Interp:
         body = P.fns.get(name)
         if body is None and (fr is None or fr.fn is None or fr.fn.crate == "bin"):
             body = P.fns.get("bin::" + name)
+        if body is None and name.startswith("<") and " as " in name:
+            # the bin crate prints std traits of lib impls with their private `core::..` path:
+            # match on (self type, last trait segment, method)
+            idx = getattr(P, "_impl_index", None)
+            if idx is None:
+                idx = {}
+                for fid_ in P.fns:
+                    m_ = re.match(r"^<(.*) as ([^<>]*?)(<.*>)?>::([A-Za-z0-9_]+)$", fid_)
+                    if m_:
+                        idx.setdefault((m_.group(1), m_.group(2).rsplit("::", 1)[-1], m_.group(4)), []).append(fid_)
+                P._impl_index = idx
+            m_ = re.match(r"^<(.*) as ([^<>]*?)(<.*>)?>::([A-Za-z0-9_]+)$", name)
+            if m_:
+                c_ = idx.get((m_.group(1), m_.group(2).rsplit("::", 1)[-1], m_.group(4)), [])
+                if len(c_) == 1:
+                    body = P.fns[c_[0]]
         if body is not None:
             if body.kind == "closure" and len(args) == 2 and isinstance(args[1], list) and body.nargs != 2:
                 args = [args[0]] + list(args[1])
